@@ -494,8 +494,10 @@ namespace Givaro {
                                                                              , Residu_t MOD ) const
     {
         // Square free ?
-        Rep W,D; this->gcd(W,diff(D,P),P);
+        Rep W,D;
         Degree d, dP;
+        if (this->degree(dP,P) < 1) return 0; // zero and constants are not irreducible
+        this->gcd(W,this->diff(D,P),P);
         if (this->degree(d,W) > 0) return 0;
         IntFactorDom<> FD;
 
@@ -505,7 +507,7 @@ namespace Givaro {
         FD.pow( qn, IntFactorDom<>::Rep(MOD), n);
         Rep Unit, G1; this->init(Unit, Degree(1));
         this->powmod(G1, Unit, qn, P);
-        if (this->degree(d, sub(D,G1,Unit)) >= 0) return 0;
+        if (this->degree(d, this->modin(this->sub(D,G1,Unit),P)) >= 0) return 0;
 
         std::vector<IntFactorDom<>::Rep> Lp; std::vector<uint64_t> Le;
         FD.set(Lp, Le, n );
@@ -513,7 +515,7 @@ namespace Givaro {
             int64_t ttmp;
             FD.pow( qn, IntFactorDom<>::Rep(MOD), n/FD.convert(ttmp,*p) );
             this->powmod(G1, Unit, qn, P);
-            if (this->degree(d, sub(D,G1,Unit)) < 0) return 0;
+            if (this->degree(d, this->gcd(W,this->sub(D,G1,Unit),P)) > 0) return 0;
         }
 
         return 1;
